@@ -57,11 +57,13 @@ def gen_points(rng: random.Random, n: int, mode: int) -> List[List[int]]:
     if mode in (1, 3):
         # end = release end; sustain points anywhere in [start, end]
         se = rng.randint(start, end)
-        ss = rng.randint(start, se)
-        rs = rng.randint(start, end)
+        ss = rng.randint(start, se) if rng.random() < 0.6 else rng.randint(0, n - 1)
+        rs = rng.randint(start, end) if rng.random() < 0.6 else rng.randint(0, n - 1)
         pts = [start, ss, se, rs, end]
     else:
-        ss = rng.randint(start, end)
+        # only the start and the selected end point delimit the audio; the loop points may lie anywhere in the data,
+        # also before the start point (a trimmed head)
+        ss = rng.randint(start, end) if rng.random() < 0.6 else rng.randint(0, n - 1)
         rs = rng.randint(0, n - 1)
         re_ = rng.randint(0, n - 1)
         pts = [start, ss, end, rs, re_]
@@ -78,7 +80,7 @@ def gen_sample(rng: random.Random, name: str, key: str, *, n=None, max_clusters:
 
 
 def gen_model(rng: random.Random, *, max_samples: int = 8, max_perf: int = 4, max_vols: int = 3, max_clusters: int = 3,
-              share: bool = True) -> dict:
+              share: bool = True, sparse: bool = True) -> dict:
     """Exact-arm model: sample names unique per disk, no L/R pairs, no sample reached through two patches of one performance."""
     keyc = [0]
 
@@ -138,6 +140,18 @@ def gen_model(rng: random.Random, *, max_samples: int = 8, max_perf: int = 4, ma
     for vi in range(nv):
         k = rng.randint(0, nperf)
         vols.append({"name": safe_name(rng, vn), "performances": rng.sample(range(nperf), k)})
+    if sparse and rng.random() < 0.4:
+        # entities scattered over their directory / parameter areas (unused slots in between, high slot numbers)
+        for lst, lim in ((samples, 0x2000), (partials, 0x1000), (patches, 0x400), (perfs, 0x200)):
+            top = rng.choice([len(lst) + 3, 40, lim, lim])
+            chosen = rng.sample(range(min(lim, max(top, len(lst)))), len(lst))
+            if rng.random() < 0.5:
+                chosen.sort()
+            if rng.random() < 0.3 and lst:
+                chosen[rng.randrange(len(lst))] = lim - 1 if (lim - 1) not in chosen else chosen[0]
+            if len(set(chosen)) == len(lst):
+                for e, sl in zip(lst, chosen):
+                    e["slot"] = sl
     return {"fat_version": rng.choice([1, 1, 2]), "spare": rng.choice([0, 1, 5, 30]), "disk_name": "DISK %d" % rng.randint(0, 99),
             "samples": samples, "partials": partials, "patches": patches, "performances": perfs, "volumes": vols}
 
